@@ -66,7 +66,7 @@ func newTabEnv(c *core.Ctx) *tabEnv {
 
 // decoderOfFn: the reader function that decodes the attribute list built by fn.
 func (e *tabEnv) decoderOfFn(fn string, depth int) string {
-	if depth > 6 {
+	if depth > 20 {
 		return ""
 	}
 	f := e.fns[fn]
@@ -108,7 +108,7 @@ func (e *tabEnv) decoderOfFn(fn string, depth int) string {
 
 // decoderOfRow: the reader function whose switch must know the row's attribute constant.
 func (e *tabEnv) decoderOfRow(fn string, r attrRow, depth int) string {
-	if depth > 8 {
+	if depth > 20 {
 		return ""
 	}
 	if r.Parent != "" {
